@@ -196,3 +196,75 @@ def check_kinds(prop, tier, seed):
                    "cases whose kind does not survive that trip are counted as unbound, not judged"]
     mine = [v for v in agg["viols"] if v["prop"] == prop]
     return verdict(prop, tier, seed, "model_checking", coverage, mine, assumptions, t0, replay_writer)
+
+
+PATHS_MODEL_CFG = "SPECIFICATION Spec\nINVARIANT RoundTrip\nINVARIANT RoundTripTarget\nCHECK_DEADLOCK FALSE\n"
+
+
+def check_paths(prop, tier, seed):
+    t0 = time.time()
+    wd = workdir(f"{prop}_{tier}")
+    build_harness()
+    out = tlc("GenPaths.tla", PATHS_MODEL_CFG, wd, workers=min(8, NCPU), name="GenPaths", timeout=1800)
+    if "No error has been found" not in out:
+        raise ToolError("PathSyntax.tla: the transcribed renderer/parser do not round-trip at model level:\n" + out[-2500:])
+    mst, mtr = tlc_stats(out)
+    fields = printed(out, "FIELDS")[0]
+    indices = printed(out, "INDICES")[0]
+    alphabet = printed(out, "ALPHABET")[0]
+    rnd = random.Random(seed)
+    segs = [{"fc": f} for f in fields] + [{"i": i} for i in indices]
+    cases = [{"kind": "path", "p": []}]
+    cases += [{"kind": "path", "p": [s]} for s in segs]
+    pairs = [[s, t] for s in segs for t in segs]
+    if tier == "quick":
+        pairs = rnd.sample(pairs, 4000)
+    cases += [{"kind": "path", "p": p} for p in pairs]
+    triples = 2000 if tier == "quick" else 40000
+    for _ in range(triples):
+        cases.append({"kind": "path", "p": [rnd.choice(segs), rnd.choice(segs), rnd.choice(segs)]})
+    # texts: all up to length n over the alphabet, plus longer seeded ones
+    n = 4 if tier == "quick" else 5
+    texts = [[]]
+    for k in range(1, n + 1):
+        texts += [list(t) for t in itertools.product(alphabet, repeat=k)]
+    extra = 15000 if tier == "quick" else 200000
+    for _ in range(extra):
+        k = rnd.randint(n + 1, n + 4)
+        t = [rnd.choice(alphabet) for _ in range(k)]
+        if rnd.random() < 0.7:
+            t[0] = rnd.choice([".", "%"])
+        texts.append(t)
+    cases += [{"kind": "text", "t": t} for t in texts]
+    log(f"[{prop}] {len(cases)} cases ({time.time()-t0:.0f}s)")
+    traces = run_cases(cases, wd, "paths", shards=NCPU)
+    agg = aggregate(validate(traces, wd, spec="TracePaths.tla", cfg=TRACE_CFG))
+    cnt = agg["cnt"]
+    write_json(os.path.join(wd, "findings.json"), {"viols": agg["viols"][:100], "divs": agg["divs"][:50]})
+
+    def replay_writer(v):
+        with open(v["_file"]) as f:
+            line = f.readlines()[v["line"] - 1]
+        return {"engine": "B/paths", "record": json.loads(line)}
+
+    coverage = {
+        "states": mst + agg["states"], "transitions": mtr + agg["transitions"],
+        "traces_validated_against_impl": cnt.get("paths", 0) + cnt.get("texts", 0),
+        "samples": [cases[5], cases[-1]],
+        "evaluations": cnt.get("paths", 0) + cnt.get("texts", 0),
+        "distinct_nontrivial": cnt.get("quoted", 0) + cnt.get("texts_both_parsers", 0),
+        "rule": "model level: all paths of 1-2 segments over fields of length <= 2 from {a,Z,0,_,@,-,.,space,\",\\,e-acute,[} (+ empty field) and "
+                "indices {0,7,10,-1,-12} round-trip through the transcribed Render/Parse (exhaustive). conformance: those paths (quick: "
+                f"all single segments, 4000 pairs, {triples} triples) through the real renderer and parsers; all texts of length <= {n} over "
+                "{. a - [ ] 0 1 \" \\ @ % space} plus seeded longer ones through parse_value_path, parse_target_path and the VRL compiler. "
+                "non-trivial = a path with a field that needs quoting, or a text both the VRL compiler and parse_target_path accept",
+        "model_states": mst, "paths": cnt.get("paths", 0), "paths_needing_quotes": cnt.get("quoted", 0),
+        "texts": cnt.get("texts", 0), "texts_accepted_by_path_parser": cnt.get("texts_accepted", 0),
+        "texts_accepted_by_both_parsers": cnt.get("texts_both_parsers", 0),
+        "model_divergences": cnt.get("model_divergences", 0) + len(agg["divs"]), "divergence_samples": agg["divs"][:5],
+        "exhaustive": False,
+    }
+    assumptions = ["texts are compared as sequences of characters; fields travel as character sequences",
+                   "R2 is judged only for texts both the VRL compiler (single query expression) and parse_target_path accept"]
+    mine = [v for v in agg["viols"] if v["prop"] == prop]
+    return verdict(prop, tier, seed, "model_checking", coverage, mine, assumptions, t0, replay_writer)
